@@ -24,6 +24,7 @@ import (
 	"github.com/trustbloc/sidetree-core-go/pkg/document"
 	"github.com/trustbloc/sidetree-core-go/pkg/observer"
 	"github.com/trustbloc/sidetree-core-go/pkg/processor"
+	"github.com/trustbloc/sidetree-core-go/pkg/versions/1_0/doctransformer/didtransformer"
 	"github.com/trustbloc/sidetree-core-go/pkg/versions/1_0/txnprocessor"
 	"pgregory.net/rapid"
 
@@ -63,7 +64,11 @@ type Case struct {
 	TwoVersions bool     `json:"twoVersions"`
 	Unpublished bool     `json:"unpublishedStore"`
 	Actions     []Action `json:"actions"`
+	// MethodContexts: the node's DID transformers are configured with two method contexts
+	MethodContexts bool `json:"methodContexts,omitempty"`
 }
+
+var methodContexts = []string{"https://w3id.org/did/v1/method", "https://second.example/ctx"}
 
 func init() {
 	ev.RegisterReplay(chk, replay)
@@ -185,6 +190,35 @@ type pipeline struct {
 	dids    map[int]*didModel
 	feat    map[string]bool
 	queued  map[string]int // suffix -> operations currently queued
+	// results the node handed out and a caller still holds (live object + JSON at the time it was returned)
+	held      []heldResult
+	methodCtx []string
+}
+
+type heldResult struct {
+	live *document.ResolutionResult
+	snap string
+	what string
+}
+
+func (p *pipeline) hold(rr *document.ResolutionResult, what string) {
+	if rr == nil {
+		return
+	}
+	p.held = append(p.held, heldResult{live: rr, snap: js(rr), what: what})
+	if len(p.held) > 16 {
+		p.held = p.held[1:]
+	}
+}
+
+// heldIntact: results handed out earlier must not change when the node serves later requests.
+func (p *pipeline) heldIntact() (string, string) {
+	for _, h := range p.held {
+		if now := js(h.live); now != h.snap {
+			return "C20/earlier-result-changed", fmt.Sprintf("the %s changed after the node served later requests: was %s, now %s", h.what, h.snap, now)
+		}
+	}
+	return "", ""
 }
 
 // GenesisB is the ledger time at which the second protocol version comes into force.
@@ -192,6 +226,10 @@ const GenesisB = 1004
 
 func newPipeline(c *Case) *pipeline {
 	p := &pipeline{c: c, ledger: &ledgerT{clock: 1000}, store: wire.NewOpStore(), unpub: wire.NewUnpubStore(), dids: map[int]*didModel{}, feat: map[string]bool{}, queued: map[string]int{}}
+	curMethodCtx = nil
+	if c.MethodContexts {
+		curMethodCtx = methodContexts
+	}
 	cas := wire.NewMemCAS()
 	types := []operation.Type{operation.TypeCreate, operation.TypeUpdate, operation.TypeRecover, operation.TypeDeactivate}
 	var tpOpts []txnprocessor.Option
@@ -200,14 +238,19 @@ func newPipeline(c *Case) *pipeline {
 	}
 	a := wire.BaseProtocol()
 	a.MaxOperationCount = c.Max
-	vs := []protocol.Version{wire.Build(a, wire.Deps{CAS: cas, OpStore: p.store, TxnProcOpts: tpOpts})}
+	var trOpts []didtransformer.Option
+	if c.MethodContexts {
+		trOpts = append(trOpts, didtransformer.WithMethodContext(methodContexts))
+		p.methodCtx = methodContexts
+	}
+	vs := []protocol.Version{wire.Build(a, wire.Deps{CAS: cas, OpStore: p.store, TxnProcOpts: tpOpts, TransformerOpts: trOpts})}
 	if c.TwoVersions {
 		b := wire.BaseProtocol()
 		b.GenesisTime = GenesisB
 		b.MaxOperationCount = c.Max
 		b.MultihashAlgorithms = []uint{19, 18}
 		b.Patches = []string{"replace", "add-public-keys", "remove-public-keys", "add-services", "remove-services", "ietf-json-patch"}
-		vs = append(vs, wire.Build(b, wire.Deps{CAS: cas, OpStore: p.store, TxnProcOpts: tpOpts}))
+		vs = append(vs, wire.Build(b, wire.Deps{CAS: cas, OpStore: p.store, TxnProcOpts: tpOpts, TransformerOpts: trOpts}))
 	}
 	p.pc = &switchClient{versions: vs, now: func() uint64 { return p.ledger.clock }}
 	q := &opqueue.MemQueue{}
@@ -240,12 +283,15 @@ func (p *pipeline) currentCode() uint64 {
 }
 
 func external(doc *refdoc.Doc, did string) map[string]interface{} {
-	m, err := refdoc.Project(doc, did, refdoc.ProjectOpts{})
+	m, err := refdoc.Project(doc, did, refdoc.ProjectOpts{MethodContext: curMethodCtx})
 	if err != nil {
 		return map[string]interface{}{"projection-error": err.Error()}
 	}
 	return norm(m).(map[string]interface{})
 }
+
+// curMethodCtx is the method-context configuration of the pipeline under evaluation.
+var curMethodCtx []string
 
 func norm(v interface{}) interface{} {
 	b, _ := json.Marshal(v)
@@ -349,6 +395,7 @@ func (p *pipeline) submit(a *Action) (string, string) {
 			return "C20/create-response", "accepted create returned no document"
 		}
 		d.createReply = norm(rr.Document).(map[string]interface{})
+		p.hold(rr, "create response of DID "+d.suffix)
 		doc, aerr := refdoc.Apply(refdoc.New(), a.Patches)
 		ok := aerr == nil
 		if ok {
@@ -367,6 +414,10 @@ func (p *pipeline) submit(a *Action) (string, string) {
 			}
 			if lr == nil || lr.Document == nil {
 				return "C20/long-form", "long-form DID of an accepted create does not resolve before anchoring: ResolveDocument returned neither a document nor an error"
+			}
+			p.hold(lr, "long-form resolution result of DID "+d.suffix)
+			if k, m := p.heldIntact(); k != "" {
+				return k, m
 			}
 			got := norm(lr.Document).(map[string]interface{})
 			// the DID string may be the long or the short form (the statement allows it to differ); everything else must agree
@@ -460,6 +511,10 @@ func (p *pipeline) compareAll() (string, string) {
 		if rr == nil || rr.Document == nil {
 			return "C20/resolution", fmt.Sprintf("DID %d (%s) with %d anchored and %d unpublished accepted operations does not resolve: ResolveDocument returned neither a document nor an error", i, did, d.anchoredN, unpubN)
 		}
+		p.hold(rr, "resolution result of DID "+d.suffix)
+		if k, m := p.heldIntact(); k != "" {
+			return k, m
+		}
 		got := norm(rr.Document).(map[string]interface{})
 		want := external(doc, did)
 		md := norm(rr.DocumentMetadata).(map[string]interface{})
@@ -534,9 +589,9 @@ type clientDID struct {
 }
 
 func TestPipeline(t *testing.T) {
-	ev.Rule(chk, "rapid workloads over the whole pipeline made of real parts (DocumentHandler -> batch.Writer driven through the verif hook -> OperationHandler -> in-memory CAS -> recording ledger assigning time, non-monotone number, canonical and equivalent references -> Observer -> TxnProcessor -> operation store -> OperationProcessor -> didtransformer): 1-5 DIDs, 3-25 client operations (create / update / recover / deactivate with patch lists over all eight actions, all key types), drawn flush points (monitor / timeout ticks), maxOperationCount 1-4, operations submitted while an earlier one for the DID is still queued, one or two protocol versions (second one with sha2-512 first, fewer patch actions, later genesis time), with and without an unpublished-operation store; oracle: after every flush and at the end every DID resolves (ResolveDocument) to the kit/refdoc + reference prediction over its accepted operations in anchoring order (document projection, commitments, deactivated, published flag and canonical id once anchored); create response == long-form resolution before anchoring == short-form resolution after anchoring (modulo the DID string); non-trivial = a DID with >= 3 applied operations including a recover or deactivate, or an operation submitted while another is queued, or a version switch")
+	ev.Rule(chk, "rapid workloads over the whole pipeline made of real parts (DocumentHandler -> batch.Writer driven through the verif hook -> OperationHandler -> in-memory CAS -> recording ledger assigning time, non-monotone number, canonical and equivalent references -> Observer -> TxnProcessor -> operation store -> OperationProcessor -> didtransformer): 1-5 DIDs, 3-25 client operations (create / update / recover / deactivate with patch lists over all eight actions, all key types), drawn flush points (monitor / timeout ticks), maxOperationCount 1-4, operations submitted while an earlier one for the DID is still queued, one or two protocol versions (second one with sha2-512 first, fewer patch actions, later genesis time), with and without an unpublished-operation store, with and without two method contexts on the transformers; every result the node hands out stays held (last 16) and must not change while later requests are served; oracle: after every flush and at the end every DID resolves (ResolveDocument) to the kit/refdoc + reference prediction over its accepted operations in anchoring order (document projection, commitments, deactivated, published flag and canonical id once anchored); create response == long-form resolution before anchoring == short-form resolution after anchoring (modulo the DID string); non-trivial = a DID with >= 3 applied operations including a recover or deactivate, or an operation submitted while another is queued, or a version switch")
 	ev.Rapid(t, chk, 60, 1200, func(t *rapid.T) {
-		c := &Case{Max: uint(rapid.IntRange(1, 4).Draw(t, "max")), TwoVersions: rapid.Bool().Draw(t, "twoVersions"), Unpublished: rapid.Bool().Draw(t, "unpublishedStore")}
+		c := &Case{Max: uint(rapid.IntRange(1, 4).Draw(t, "max")), TwoVersions: rapid.Bool().Draw(t, "twoVersions"), Unpublished: rapid.Bool().Draw(t, "unpublishedStore"), MethodContexts: rapid.Bool().Draw(t, "methodContexts")}
 		p := newPipeline(c)
 		defer p.close()
 		clients := map[int]*clientDID{}
